@@ -22,7 +22,7 @@ package mint
 //@   loop range(inputs) invariant 0 <= i && i <= len(inputs) && fees == fee.sum(seq(inputs), mapkeys(m.keysets), mapvals(m.keysets), i) % 18446744073709551616
 
 //@ func (*Mint).verifyProofs
-//@   tags C01
+//@   tags C01 C04 C12 C13
 //@   safety C06
 //@   requires minv(m)
 //@   requires len(Ys) == len(proofs)
@@ -31,7 +31,7 @@ package mint
 //@   ensures @unspent [C01] err == nil ==> (forall i :: 0 <= i && i < len(proofs) ==> !db.spent[Yof(proofs[i].Secret)] && !db.pending[Yof(proofs[i].Secret)])
 
 //@ func (*Mint).signBlindedMessages
-//@   tags C02 C09
+//@   tags C02 C09 C10
 //@   safety C06
 //@   requires minv(m)
 //@   ensures @len err == nil ==> len(result) == len(blindedMessages)
@@ -40,7 +40,7 @@ package mint
 //@   loop range(blindedMessages) invariant 0 <= i && i <= len(blindedMessages) && len(blindedSignatures) == len(blindedMessages) && sum.sig.amount(seq(blindedSignatures), i) == sum.bm.amount(seq(blindedMessages), i) && (forall j :: 0 <= j && j < i ==> blindedSignatures[j].Amount == blindedMessages[j].Amount && blindedSignatures[j].Id == m.activeKeyset.Id && blindedMessages[j].Id == m.activeKeyset.Id && blindedSignatures[j].DLEQ != nil)
 
 //@ func (*Mint).Swap
-//@   tags C01 C02
+//@   tags C01 C02 C06 C15 C12
 //@   safety C06
 //@   requires minv(m)
 //@   requires dbinv()
@@ -53,6 +53,8 @@ package mint
 //@   ensures @distinct [C01] err == nil ==> (forall i, j :: 0 <= i && i < j && j < len(proofs) ==> Yof(proofs[i].Secret) != Yof(proofs[j].Secret))
 //@   ensures @monotone [C01] forall y Str :: old(db.spent)[y] ==> db.spent[y]
 //@   ensures @sigsaved [C15] err == nil ==> (forall i :: 0 <= i && i < len(blindedMessages) ==> db.sig[blindedMessages[i].B_])
+//@   ensures @atomic [C06] err != nil && db.faults == old(db.faults) ==> db.spent == old(db.spent) && db.sig == old(db.sig) && db.pending == old(db.pending)
+//@   ensures @len [C02,C15] err == nil ==> len(result) == len(blindedMessages)
 
 //@ func (*Mint).GetMintQuoteState
 //@   tags C03
@@ -66,7 +68,7 @@ package mint
 //@   ensures @transition [C03] db.mqrow[quoteId] == old(db.mqrow)[quoteId] || (old(db.mqrow)[quoteId].State == nut04.Unpaid && db.mqrow[quoteId] == setfield(old(db.mqrow)[quoteId], "State", nut04.Paid))
 
 //@ func (*Mint).MintTokens
-//@   tags C03
+//@   tags C03 C02 C06 C15
 //@   safety C06
 //@   requires minv(m)
 //@   requires mppinv()
@@ -95,7 +97,7 @@ package mint
 //@   ensures @errisfault [C06] err != nil && (forall i :: 0 <= i && i < len(Ys) ==> !old(db.spent)[Ys[i]]) && (forall i, j :: 0 <= i && i < j && j < len(Ys) ==> Ys[i] != Ys[j]) ==> db.faults > old(db.faults)
 
 //@ func (*Mint).removePendingProofsForQuote
-//@   tags C05
+//@   tags C01 C05
 //@   safety C06
 //@   requires minv(m)
 //@   loop range(dbproofs) invariant 0 <= i && i <= len(dbproofs) && len(Ys) == len(dbproofs) && len(proofs) == len(dbproofs) && (forall j :: 0 <= j && j < i ==> Ys[j] == dbproofs[j].Y && proofs[j].Secret == dbproofs[j].Secret && proofs[j].Amount == dbproofs[j].Amount && proofs[j].Id == dbproofs[j].Id && proofs[j].C == dbproofs[j].C && proofs[j].Witness == dbproofs[j].Witness)
@@ -124,7 +126,7 @@ package mint
 //@ macro payfailed() = ln.payerr != nil || ln.pay.PaymentStatus == lightning.Failed
 
 //@ func (*Mint).MeltTokens
-//@   tags C05
+//@   tags C01 C02 C05 C06 C15
 //@   safety C06
 //@   requires minv(m)
 //@   requires mppinv()
@@ -158,7 +160,7 @@ package mint
 //@ macro quoteproofsfree(q) = (forall y Str :: old(db.pending)[y] && old(db.pendrow)[y].MeltQuoteId == q ==> !db.pending[y] && db.spent[y] == old(db.spent)[y])
 
 //@ func (*Mint).GetMeltQuoteState
-//@   tags C05
+//@   tags C01 C05 C15
 //@   safety C06
 //@   requires minv(m)
 //@   requires mppinv()
@@ -179,7 +181,7 @@ package mint
 //@ macro truestate(ps, y) = (db.spent[y] ==> ps.State == nut07.Spent && ps.Witness == db.spentrow[y].Witness) && (!db.spent[y] && db.pending[y] ==> ps.State == nut07.Pending && ps.Witness == db.pendrow[y].Witness) && (!db.spent[y] && !db.pending[y] ==> ps.State == nut07.Unspent && ps.Witness == "")
 
 //@ func (*Mint).ProofsStateCheck
-//@   tags C15
+//@   tags C15 C01 C05
 //@   safety C06
 //@   requires minv(m)
 //@   requires mppinv()
@@ -217,7 +219,7 @@ package mint
 //@   ensures @errisfault [C16] err != nil ==> db.faults > old(db.faults)
 
 //@ func (*Mint).RequestMintQuote
-//@   tags C16 C03
+//@   tags C16 C03 C02
 //@   safety C06
 //@   requires minv(m)
 //@   requires mppinv()
@@ -229,7 +231,7 @@ package mint
 //@   ensures @others [C03] forall q Str :: old(db.mq)[q] ==> db.mq[q] && db.mqrow[q] == old(db.mqrow)[q]
 
 //@ func (*Mint).RequestMeltQuote
-//@   tags C16 C02
+//@   tags C16 C02 C05
 //@   safety C06
 //@   requires minv(m)
 //@   requires mppinv()
@@ -243,7 +245,7 @@ package mint
 //@   ensures @unique [C02] err == nil && db.faults == old(db.faults) ==> (forall q Str :: old(db.melt)[q] ==> old(db.meltrow)[q].InvoiceRequest != meltQuoteRequest.Request)
 
 //@ func (*Mint).requestInvoice
-//@   tags C03
+//@   tags C03 C02
 //@   safety C06
 //@   requires minv(m)
 //@   ensures @invoice [C03] err == nil ==> result != nil && decode.msat(result.PaymentRequest) == amount * 1000 && decode.hash(result.PaymentRequest) == result.PaymentHash
